@@ -24,11 +24,11 @@ CFG = dict(
           "because they check dimensions/begin==end and that constructing the view dereferences nothing)."),
     exhaustive={"quick": True, "thorough": True},
     exhaustive_domain={"quick": "w,h in 0..6, words up to depth 2 over 10 letters (+nth_channel/kth_channel/color_converted terminal), all coordinates, 26 organisations; plus 4 large shapes at depth 1",
-                       "thorough": "w,h in 0..9, words up to depth 3 (depth 2 when w*h>49), all coordinates, 26 organisations; plus 4 large shapes at depth 1"},
+                       "thorough": "w,h in 0..12, words up to depth 3 (depth 2 when w*h>64), all coordinates, 26 organisations; plus 4 large shapes at depth 1"},
     types=NAMES,
     assumptions=["alignment per shape is taken from {0,4,8,16} by a fixed rule, not all alignments per shape",
                  "subimage letter uses one interior rectangle per shape (1-pixel border removed where possible)",
                  "BOOST_ASSERTs are off (NDEBUG) as in the repository's test build"],
     tus=[tu("c02_org%d" % k, "harness/c02_view_transforms.cpp", "asan", extra=NONULL + ["-DORG=%d" % k]) for k in ORGS],
-    runs=[run("c02_org%d" % k, shards=2, min_cases={"quick": 49, "thorough": 100}) for k in ORGS],
+    runs=[run("c02_org%d" % k, shards={"quick": 2, "thorough": 8}, min_cases={"quick": 49, "thorough": 169}) for k in ORGS],
 )
